@@ -37,7 +37,7 @@ Flatten(ss) == IF ss = <<>> THEN <<>> ELSE Head(ss) \o Flatten(Tail(ss))
 AllPvers == <<0, 208, 209, 31401, 31402, 60000, 60001, 60002, 70000, 70001, 70002,
               70010, 70011, 70012, 70013, 70015, 70016, 70017>>
 PversOf(type) ==
-    IF Thorough THEN AllPvers
+    IF Thorough THEN (IF type \in {"tx", "block"} THEN <<0, 209, 70001, 70016, 70017>> ELSE AllPvers)
     ELSE CASE type = "version" -> <<31401, 31402, 70000, 70001, 70016>>
            [] type = "addr" -> <<208, 209, 31401, 31402, 70016>>
            [] type \in {"ping", "pong"} -> <<60000, 60001, 70016>>
@@ -47,7 +47,7 @@ PversOf(type) ==
            [] type = "sendheaders" -> <<70011, 70012, 70016>>
            [] type = "feefilter" -> <<70012, 70013, 70016>>
            [] type \in {"sendaddrv2", "wtxidrelay", "addrv2"} -> <<70015, 70016, 70017>>
-           [] OTHER -> <<0, 70016>>
+           [] OTHER -> <<70016>>
 EncsOf(type) == IF type \in {"tx", "block"} \/ Thorough THEN <<"base", "witness">> ELSE <<"witness">>
 
 -----------------------------------------------------------------------------
@@ -85,7 +85,10 @@ TxLegacy == Tx(<<Run(1, In(107, <<>>)), Run(1, In(0, <<>>))>>, <<Run(1, Out(25))
 TxSegwit == Tx(<<Run(1, In(0, <<Run(1, It(72)), Run(1, It(33))>>)), Run(1, In(23, <<>>))>>, <<Run(1, Out(34))>>)
 TxCoinbase == Tx(<<Run(1, In(4, <<Run(1, It(32))>>))>>, <<Run(1, Out(25)), Run(1, Out(38))>>)
 
-TxShapes ==
+QuickTxShapes == {"min", "legacy", "segwit-mixed", "coinbase", "empty-witness-item", "no-outputs", "no-inputs",
+                  "no-inputs-no-outputs", "no-inputs-two-outputs", "in-253-witness", "out-253", "wit-items-253",
+                  "script-253", "script-65536", "in-65536", "script-max", "script-max+1", "slab-full", "slab-over"}
+AllTxShapes ==
     <<Sh("min", TxMin), Sh("legacy", TxLegacy), Sh("segwit-mixed", TxSegwit), Sh("coinbase", TxCoinbase),
       Sh("empty-witness-item", Tx(<<Run(1, In(0, <<Run(1, It(0)), Run(1, It(1))>>))>>, <<Run(1, Out(1))>>)),
       Sh("no-outputs", Tx(<<Run(1, In(1, <<>>))>>, <<>>)),
@@ -120,6 +123,8 @@ TxShapes ==
           Sh("wit-items-max", Tx(<<Run(1, In(0, <<Run(MaxWitnessItemsPerInput, It(0))>>))>>, <<Run(1, Out(1))>>)),
           Sh("wit-items-max+1", Tx(<<Run(1, In(0, <<Run(MaxWitnessItemsPerInput + 1, It(0))>>))>>, <<Run(1, Out(1))>>))>>
         ELSE <<>>)
+
+TxShapes == IF Thorough THEN AllTxShapes ELSE SelectSeq(AllTxShapes, LAMBDA sh : sh.name \in QuickTxShapes)
 
 Blk(txs) == [txs |-> txs]
 BlockShapes ==
@@ -235,6 +240,16 @@ ViaSer(c, ts) ==
          raw |-> d.res]
 Via(c, ts) == IF c.api = "msg" THEN ViaFrame(c, ts) ELSE ViaSer(c, ts)
 
+\* why an accepted input is not the canonical encoding of its value (the leniencies the
+\* protocol itself has)
+Leniency(type, pver, x) ==
+    CASE type = "version" ->
+            IF x.stage < 4 \/ (x.stage = 4 /\ pver >= BIP0037Version) THEN "optional-tail"
+            ELSE IF x.stage = 5 /\ pver < BIP0037Version THEN "relay-byte-before-bip37"
+            ELSE "bool-not-0-or-1"
+      [] type = "addrv2" -> "ignored-network"
+      [] OTHER -> "none"
+
 \* one decode variant: the byte-level recipe, the model's verdict, and for accepted
 \* inputs whether re-encoding reproduces the input
 Variant(c, cls, f, at, del, ins, cut, ts, consumed) ==
@@ -248,7 +263,8 @@ Variant(c, cls, f, at, del, ins, cut, ts, consumed) ==
          \* re-encoding equals the input depends on their content
          chk |-> ~(ok /\ cls = "junk" /\ c.type = "version"),
          val |-> IF ok THEN v.x ELSE <<>>,
-         reenc |-> IF ok /\ ~canon THEN re ELSE <<>>]
+         reenc |-> IF ok /\ ~canon THEN re ELSE <<>>,
+         lenient |-> IF ok /\ ~canon THEN Leniency(c.type, c.pver, v.x) ELSE ""]
 
 TruncVariants(c, toks) ==
     LET ps == Truncs(toks)
@@ -267,14 +283,27 @@ NonCanonVariants(c, toks) ==
     IN  Flatten([i \in 1..Len(sites) |-> one(sites[i])])
 
 \* values a hostile peer can claim at a count / length site with limit lim
-HostileValues(t, lim) ==
+\* (claims WITHIN the limit whose elements are missing make the decoder allocate for the claimed
+\* count: they are offered in the probe cases only, one shape per type)
+HostileValues(t, lim, probe) ==
     IF lim < 0 THEN <<>>                                  \* plain data
     ELSE IF lim = 0 THEN <<1, HU64>>                      \* must be zero
     ELSE SelectSeq(<<lim, lim + 1, 65535, 65536, H31, HU32, H32, H63, HU64>>,
-                   LAMBDA v : v < 0 \/ (v > t.v /\ v # 0))
+                   LAMBDA v : v < 0 \/ (v > t.v /\ v # 0 /\ (probe \/ v > lim)))
+ProbeShape(type) ==
+    CASE type = "tx" -> "segwit-mixed"
+      [] type = "block" -> "mixed"
+      [] type = "version" -> "full-relay-1"
+      [] type = "reject" -> "block"
+      [] type = "filterload" -> "typical"
+      [] type = "addrv2" -> "all-kept"
+      [] type = "merkleblock" -> "hashes-1"
+      [] type \in {"filteradd", "cfilter"} -> "data-1"
+      [] OTHER -> "n-1"
+Probe(c) == c.shape = ProbeShape(c.type) /\ (Thorough \/ c.pver = PversOf(c.type)[Len(PversOf(c.type))])
 HostileVariants(c, toks) ==
     LET sites == ViSites(toks, <<>>)
-        one(s) == LET vs == HostileValues(s.t, ViLimitT(c.type, s.t.f))
+        one(s) == LET vs == HostileValues(s.t, ViLimitT(c.type, s.t.f), Probe(c))
                       at == SeqSize(s.pre)
                   IN  Flatten([j \in 1..Len(vs) |->
                          LET nt == TVi(s.t.f, vs[j])
@@ -388,11 +417,18 @@ Expect(c) ==
           write |-> IF c.api = "msg" THEN WriteFrame(c.type, c.pver, c.enc, c.m) ELSE EncRes(c.type, c.pver, c.enc, c.m),
           maxpayload |-> IF c.api = "msg" THEN MaxPayload(c.type, c.pver) ELSE -1,
           indomain |-> InDomain(c),
+          probe |-> Probe(c),
           dec |-> d.res,
           back |-> IF d.res = "ok" THEN d.x ELSE <<>>,
           canon |-> d.res = "ok" /\ ReEnc(c.type, c.pver, c.enc, d.x) = toks,
           reenc |-> IF d.res = "ok" /\ ReEnc(c.type, c.pver, c.enc, d.x) # toks THEN ReEnc(c.type, c.pver, c.enc, d.x) ELSE <<>>,
+          lenient |-> IF d.res = "ok" /\ ReEnc(c.type, c.pver, c.enc, d.x) # toks THEN Leniency(c.type, c.pver, d.x) ELSE "",
           txid |-> IF c.type = "tx" THEN TxidTokens(c.m) ELSE <<>>,
+          \* per transaction of a block: the preimages of its two identifiers
+          txruns |-> IF c.type = "block"
+                     THEN [r \in 1..Len(c.m.txs) |-> [n |-> c.m.txs[r].n, txid |-> TxidTokens(c.m.txs[r].e),
+                                                      wtxid |-> WtxidTokens(c.m.txs[r].e)]]
+                     ELSE <<>>,
           haswit |-> IF c.type = "tx" THEN HasWit(c.m) ELSE FALSE,
           stripsize |-> CASE c.type = "tx" -> TxBaseSize(c.m) [] c.type = "block" -> BlockSize(c.m, "base") [] OTHER -> -1,
           fullsize |-> CASE c.type = "tx" -> TxSize(c.m) [] c.type = "block" -> BlockSize(c.m, "witness") [] OTHER -> -1 ]
@@ -404,7 +440,8 @@ SerTypes == <<"tx", "block", "header">>
 
 RootExpect ==
     [ huge |-> Huge, allocfactor |-> AllocFactor, maxmessagepayload |-> MaxMessagePayload,
-      header |-> FrameHeader, blockheader |-> HeaderTokens ]
+      header |-> FrameHeader, blockheader |-> HeaderTokens,
+      types |-> MsgTypes, sertypes |-> SerTypes ]
 
 Init == /\ case = [kind |-> "root"]
         /\ expect = RootExpect
